@@ -63,6 +63,124 @@ var c26ForceLen uint32
 
 func c26ErrIs(err error, msg string) bool { return err != nil && err.Error() == msg }
 
+// Re-parametrisation of the input stream. The symbols of a harness are not the wire bytes
+// themselves but (plaintext-level bytes, tag XOR ideal tag): the harness applies the ideal
+// encryption / adds the ideal tag of the declared packet in place before handing the stream to
+// the reader. For fixed keys this is a bijection on byte streams (XOR with a keystream that
+// does not depend on the stream; the tag offset depends only on earlier bytes; a block
+// permutation), so "all symbols" still means "all byte streams", and a solver counterexample
+// replays natively although the native oracles differ from the solver's function
+// interpretations. Streams in which no complete packet fits are left as they are.
+
+func c26ReparamStream(mode int, b, ks, key []byte, seq uint32) {
+	macSize := c25MacSize(mode)
+	if macSize == 0 || len(b) < 5 {
+		return
+	}
+	var pre [5]byte
+	for i := 0; i < 5; i++ {
+		pre[i] = b[i]
+		if mode != c25ETM {
+			pre[i] ^= ks[i]
+		} else if i == 4 {
+			pre[i] ^= ks[0]
+		}
+	}
+	length := binary.BigEndian.Uint32(pre[:4])
+	if length > maxPacket || uint32(len(b)) < 4+length+uint32(macSize) {
+		return
+	}
+	total := 4 + int(verifrt.Concretize(int(length)))
+	if total < 5 {
+		return
+	}
+	plain := make([]byte, total)
+	copy(plain, pre[:])
+	for i := 5; i < total; i++ {
+		if mode == c25ETM {
+			plain[i] = b[i] ^ ks[i-4]
+		} else {
+			plain[i] = b[i] ^ ks[i]
+		}
+	}
+	tag := c25StreamSpecTag(mode, key, seq, plain, b[:total])
+	for i := 0; i < macSize; i++ {
+		b[total+i] ^= tag[i]
+	}
+}
+
+func c26ReparamGCM(b, key, iv []byte) {
+	if len(b) < 4 {
+		return
+	}
+	length := binary.BigEndian.Uint32(b[:4])
+	if length > maxPacket || uint32(len(b)) < 4+length+16 {
+		return
+	}
+	l := int(verifrt.Concretize(int(length)))
+	ks := c25AEADStream(key, iv, l)
+	for i := 0; i < l; i++ {
+		b[4+i] ^= ks[i]
+	}
+	tag := c25AEADTag(key, iv, b[:4], b[4:4+l])
+	for i := 0; i < 16; i++ {
+		b[4+l+i] ^= tag[i]
+	}
+}
+
+func c26ReparamChaCha(b, key []byte, seq uint32) {
+	if len(b) < 4 {
+		return
+	}
+	k2, k1 := key[:32], key[32:]
+	nonce := c25cat(make([]byte, 8), c25seqBytes(seq))
+	length := binary.BigEndian.Uint32(b[:4]) // the symbols are the plaintext length bytes
+	lks := c25ChaChaStream(k1, nonce, 0, 4)
+	for i := 0; i < 4; i++ {
+		b[i] ^= lks[i]
+	}
+	if c26ForceLen != 0 {
+		verifrt.Assume(length == c26ForceLen)
+	}
+	if length > maxPacket || uint32(len(b)) < 4+length+16 {
+		return
+	}
+	l := int(verifrt.Concretize(int(length)))
+	pks := c25ChaChaStream(k2, nonce, 1, l)
+	for i := 0; i < l; i++ {
+		b[4+i] ^= pks[i]
+	}
+	tag := c25Poly(c25ChaChaBlock(k2, nonce, 0)[:32], b[:4+l])
+	for i := 0; i < 16; i++ {
+		b[4+l+i] ^= tag[i]
+	}
+}
+
+func c26ReparamCBC(bs int, b, bkey, iv, mkey []byte, seq uint32, macSize int) {
+	fb := (prefixLen + bs - 1) / bs * bs
+	if len(b) < fb {
+		return
+	}
+	enc := &c25CBC{key: bkey, bs: bs, prev: append([]byte(nil), iv...)}
+	first := append([]byte(nil), b[:fb]...) // the symbols are the first plaintext block
+	length := binary.BigEndian.Uint32(first[:4])
+	if c26ForceLen != 0 {
+		verifrt.Assume(length == c26ForceLen)
+	}
+	enc.CryptBlocks(b[:fb], first)
+	if length > maxPacket || (length+4)%uint32(bs) != 0 || length+4 < uint32(fb) || uint32(len(b)) < 4+length+uint32(macSize) {
+		return
+	}
+	total := 4 + int(verifrt.Concretize(int(length)))
+	plain := append([]byte(nil), b[:total]...)
+	copy(plain, first)
+	enc.CryptBlocks(b[fb:total], plain[fb:])
+	tag := c25MacOracle(mkey, macSize, c25cat(c25seqBytes(seq), plain))
+	for i := 0; i < macSize; i++ {
+		b[total+i] ^= tag[i]
+	}
+}
+
 // ---------- streamPacketCipher (and the initial "none" transport) ----------
 
 const c26None = 100 // noneCipher{} without MAC, as installed by newTransport
@@ -92,6 +210,7 @@ func c26Stream(mode int, b []byte) {
 		}
 		verifrt.Assume(binary.BigEndian.Uint32(lb[:]) == c26ForceLen)
 	}
+	c26ReparamStream(mode, b, ks, key, seq)
 	res := c26Read(pc, seq, b)
 	if n < 5 {
 		verifrt.Assert(res.err != nil, "short prefix => error")
@@ -201,6 +320,7 @@ func c26GCM(b []byte) {
 	if c26ForceLen != 0 && n >= 4 {
 		verifrt.Assume(binary.BigEndian.Uint32(b[:4]) == c26ForceLen)
 	}
+	c26ReparamGCM(b, key, iv0)
 	res := c26Read(pc, seq, b)
 	if n < 4 {
 		verifrt.Assert(res.err != nil, "short prefix => error")
@@ -279,6 +399,7 @@ func c26ChaCha(b []byte) {
 	seq := verifrt.U32()
 	key := verifrt.Bytes(64)
 	pc, _ := newChaCha20Cipher(append([]byte(nil), key...), nil, nil, DirectionAlgorithms{})
+	c26ReparamChaCha(b, key, seq)
 	if c26ForceLen != 0 && n >= 4 {
 		l0 := c25ChaChaStream(key[32:], c25cat(make([]byte, 8), c25seqBytes(seq)), 0, 4)
 		lb := []byte{b[0] ^ l0[0], b[1] ^ l0[1], b[2] ^ l0[2], b[3] ^ l0[3]}
@@ -364,6 +485,7 @@ func c26CBC(bs int, b []byte) {
 	const macSize = 20
 	pc := c25NewCBC(bkey, iv, mkey, bs, macSize)
 	fb := (prefixLen + bs - 1) / bs * bs
+	c26ReparamCBC(bs, b, bkey, iv, mkey, seq, macSize)
 	if c26ForceLen != 0 && n >= fb {
 		r0 := &c25CBC{key: bkey, bs: bs, prev: append([]byte(nil), iv...), dec: true}
 		f0 := make([]byte, fb)
